@@ -90,10 +90,11 @@ CART_CODES = {
     't7': b'w1=1\n -->8\nw2=2\n--->8\nw3=3\n',           # near-miss separators
     't8': b's=[[\n-->8\n]]\nt=2\n-->8\nu=3\n',            # a long string opened in tab 0 and closed in tab 1
     't9': b'g=1 --[[ c\n-->8\nd ]]\nv=1',                   # a long comment across a tab boundary, unterminated end
+    't10': b'-->8\n'.join(b'tab%d=%d\n' % (i, i) for i in range(12)),   # twelve tabs: selectors with two digits, 8 and 9
 }
 CART_DIRS = {'t0': ['', 'sub/', 'sub/deep/'], 't1': ['', 'sub/'], 't2': [''], 't3': [''], 't4': [''], 't5': [''],
-             't6': [''], 't7': [''], 't8': ['', 'sub/'], 't9': ['']}
-MISSING = ['nope.lua', 'nope.p8', 'nope.p8.png', 'sub/nope.lua', 'l0.p8']
+             't6': [''], 't7': [''], 't8': ['', 'sub/'], 't9': [''], 't10': ['']}
+MISSING = ['nope.lua', 'nope.p8', 'nope.p8.png', 'sub/nope.lua', 'l0.p8', 'dir.lua']     # dir.lua is a directory
 
 
 def p8_file(code):
@@ -134,6 +135,7 @@ def sandbox():
             content[rel] = (2, text)
     fsobs.write_file(os.path.join(S, 'c', 'bad.p8'), b'not a cart\n')
     os.makedirs(os.path.join(S, 'home'), exist_ok=True)
+    os.makedirs(os.path.join(S, 'c', 'dir.lua'), exist_ok=True)
     SB['root'], SB['content'] = S, content
     SB['view'] = None
     SB['view_ok'] = []
@@ -298,6 +300,7 @@ def corpus_cases():
            'names': ['l0.lua', 'sub/t0.p8', 't0.p8.png'], 'mode': 'abs'}
     yield {'kind': 'load', 'host': ['#include t2.p8', '#include t2.p8.png'], 'names': ['t2.p8', 't2.p8.png'], 'mode': 'relc'}
     yield {'kind': 'load', 'host': ['a=1', '#include nope.lua', 'b=2'], 'names': ['nope.lua'], 'mode': 'abs'}
+    yield {'kind': 'load', 'host': ['a=1', '#include dir.lua', 'b=2'], 'names': ['dir.lua'], 'mode': 'abs'}
     yield {'kind': 'load', 'host': ['#include t3.p8:0', '#include t4.p8:1', '#include t4.p8:2', '#include t4.p8:3'],
            'names': ['t3.p8', 't4.p8'], 'mode': 'abs'}
     yield {'kind': 'load', 'host': ['#include l4.lua', 'after=1'], 'names': ['l4.lua'], 'mode': 'abs'}
@@ -305,6 +308,8 @@ def corpus_cases():
     # the former tab-counting defect (fixed): a -->8 line inside a long string / comment is a tab boundary
     yield {'kind': 'load', 'host': ['#include t8.p8:1', 'z=1', '#include t8.p8.png:2'], 'names': ['t8.p8', 't8.p8.png'], 'mode': 'abs'}
     yield {'kind': 'load', 'host': ['#include t9.p8:0', 'z=1'], 'names': ['t9.p8'], 'mode': 'abs'}
+    yield {'kind': 'load', 'host': ['#include t10.p8:8', '#include t10.p8.png:10', '#include t10.p8:011', '#include t10.p8:12'],
+           'names': ['t10.p8', 't10.p8.png'], 'mode': 'abs'}
     yield {'kind': 'nofile', 'host': ['x=1', '#include l0.lua']}
     yield {'kind': 'nofile', 'host': ['x=1', 'y=2']}
 
